@@ -8,6 +8,8 @@ From Coq Require Import ZArith List Bool.
 Import ListNotations.
 Local Open Scope Z_scope.
 
+(* UNSIGNED 16-bit big-endian: for 0 <= n < 65536 the two bytes are n / 256 (0..255) and n mod 256; lengths
+   32768..65535 have the top bit set (0x80..0xFF first byte) and are valid. *)
 Definition u16_be (n : Z) : list Z := [n / 256; n mod 256].
 
 Definition composite_component (b : list Z) : list Z :=
